@@ -440,14 +440,10 @@ class X86_64Arch(Architecture):
                 yield self.move(arg, arg_loc)
             elif isinstance(arg_loc, StackLocation):
                 if isinstance(arg, registers.Register64):
-                    yield bits64.MovRegRm(
-                        arg, RmMemDisp(rbp, stack_offset + 16)
-                    )
+                    yield bits64.MovRegRm(arg, RmMemDisp(rbp, arg_loc.offset))
                     stack_offset += arg_loc.size
                 elif isinstance(arg, registers.Register32):
-                    yield bits32.MovRegRm(
-                        arg, RmMemDisp(rbp, stack_offset + 16)
-                    )
+                    yield bits32.MovRegRm(arg, RmMemDisp(rbp, arg_loc.offset))
                     stack_offset += arg_loc.size
                 elif isinstance(arg, StackLocation):
                     # Store memcpy action for later:
@@ -457,10 +453,10 @@ class X86_64Arch(Architecture):
                     # call. Use memory as is!
                     stack_offset += arg.size
                 elif isinstance(arg, registers.XmmRegisterDouble):
-                    yield Movsd(arg, RmMemDisp(rbp, stack_offset + 16))
+                    yield Movsd(arg, RmMemDisp(rbp, arg_loc.offset))
                     stack_offset += arg_loc.size
                 elif isinstance(arg, registers.XmmRegisterSingle):
-                    yield Movss(arg, RmMemDisp(rbp, stack_offset + 16))
+                    yield Movss(arg, RmMemDisp(rbp, arg_loc.offset))
                     stack_offset += arg_loc.size
                 else:  # pragma: no cover
                     raise NotImplementedError(str(type(arg)))
